@@ -102,8 +102,10 @@ func (p *Pool) OpsFor(i int) []string {
 		return damagedOps
 	case "cs":
 		return []string{"cs.parse", "cs.extract"}
-	case "html":
+	case "html", "htmlrich":
 		return []string{"html.text", "html.markdown", "file.text", "file.markdown", "file.document", "file.jsonl", "file.markdown.toc", "fmt.reader.sequence", "ext.afterfail"}
+	case "officedamaged":
+		return []string{"file.text", "file.markdown", "file.document", "file.jsonl", "fmt.reader.sequence"}
 	}
 	return fileOps
 }
